@@ -383,12 +383,6 @@ theorem bytesLe_total : ∀ (a b : Bytes), bytesLe a b = false → bytesLe b a =
       · simp only [h1, h2, if_false] at h ⊢
         exact bytesLe_total as bs h
 
-/-- adjacent elements are in key order -/
-def sortedBy {α : Type} (key : α → Bytes) : List α → Bool
-  | [] => true
-  | [_] => true
-  | x :: y :: r => bytesLe (key x) (key y) && sortedBy key (y :: r)
-
 theorem sortedBy_tail {α : Type} (key : α → Bytes) (x : α) (l : List α)
     (h : sortedBy key (x :: l) = true) : sortedBy key l = true := by
   cases l with
